@@ -282,3 +282,51 @@ class WindowFillStep:
                                                 ("seq", sq), ("src_cpu", 31), ("src_port", 7), ("src_x", 0), ("src_y", 0), ("tag", 255))
                        and _trace[n - 2][2].callback == g_args.callback and _trace[n - 2][2].timeout == self.default_timeout + g_args.timeout
                        and _trace[n - 1] == ("send", _trace[n - 2][2].packet.bytestring))
+
+
+# ---- a new connection: its own socket to exactly the host and port given, its own sequence numbers ---------------------------------
+def _sock_new(E, args, kwargs, st, node):
+    from pyvc.values import ListV as _L, ObjV as _O
+    s = st.copy()
+    s.trace = _L(s.trace.items + (("socket",) + tuple(args),))
+    return [(s, _O("Socket", {"ident": 41}))]
+
+
+def _sock_connect(E, obj, args, kwargs, st, node):
+    from pyvc.values import ListV as _L, NONE as _N
+    s = st.copy()
+    s.trace = _L(s.trace.items + (("connect", obj.fields["ident"]) + tuple(args),))
+    return [(s, _N, obj)]
+
+
+def _seqs_new(E, args, kwargs, st, node):
+    from pyvc.values import ListV as _L, ObjV as _O
+    s = st.copy()
+    s.trace = _L(s.trace.items + (("seqs",) + tuple(args) + tuple(sorted(kwargs.items())),))
+    return [(s, _O("Seqs", {"ident": 42}))]
+
+
+import socket as _socket_mod   # noqa: E402
+assert (int(_socket_mod.AF_INET), int(_socket_mod.SOCK_DGRAM)) == (2, 2)
+
+
+@contract("rig/machine_control/scp_connection.py::SCPConnection.__init__")
+class ConnectionInit:
+    """a connection is one datagram socket connected to exactly (host, port) as given, keeps exactly the number of tries and the
+    timeout given, and draws its sequence numbers from a generator of its OWN, started for it with the full 16-bit space (two
+    connections never share a counter)"""
+    properties = ("C06", "C17")
+    params = dict(self=TRec("SCPConnection"), spinnaker_host=TInt(), port=TInt(1, 65535), n_tries=TInt(1, 100), timeout=TReal())
+    externals = {"socket": _sock_new, "Socket.connect": _sock_connect, "def:seqs": _seqs_new}
+    assumptions = ["socket.socket / connect and the generator function seqs (contract Seqs) are recorded; AF_INET / SOCK_DGRAM are the "
+                   "interpreter's constants"]
+
+    def native(x):
+        raise __import__("pyvc.replay", fromlist=["OutsideHarness"]).OutsideHarness()
+
+    def ensures_own_socket_to_the_host_given_and_own_counter(self_post, spinnaker_host, port, n_tries, timeout, _trace):
+        # (2, 2: AF_INET and SOCK_DGRAM - an IPv4 datagram socket; compared with the interpreter's constants below)
+        return (len(_trace) == 3 and _trace[0] == ("socket", 2, 2)
+                and _trace[1] == ("connect", 41, (spinnaker_host, port)) and _trace[2] == ("seqs",)
+                and self_post.sock.ident == 41 and self_post.seq.ident == 42
+                and self_post.n_tries == n_tries and self_post.default_timeout == timeout)
